@@ -62,6 +62,10 @@ func applyUpdates(cur map[string]TMVal, ups []abci.ValidatorUpdate) (map[string]
 		if err != nil {
 			return nil, &ApplyError{"bad-pubkey", err.Error()}
 		}
+		if u.PubKey.Type != tmtypes.ABCIPubKeyTypeEd25519 {
+			// Tendermint validates updates against ConsensusParams.Validator.PubKeyTypes (ed25519 in every run)
+			return nil, &ApplyError{"key-type-not-allowed", fmt.Sprintf("%s", k)}
+		}
 		if u.Power == 0 {
 			if _, ok := cur[k]; !ok {
 				return nil, &ApplyError{"remove-absent", k}
